@@ -118,6 +118,26 @@ RECURSIVE NumFrom(_, _, _)
 NumFrom(d, i, acc) == IF i > Len(d) THEN acc ELSE NumFrom(d, i + 1, acc * 10 + (d[i] - 48))
 ParseNum(d) == NumFrom(d, 1, 0)
 
+(* fmt.Sscanf(part, "%020d", &uint64) as the generator uses it on the parts of an EXISTING key: it reads  *)
+(* at most 20 characters, takes their leading run of digits (no sign), ignores whatever follows, fails  *)
+(* when there is no leading digit ("expected integer" / unexpected EOF for an empty part) and when the   *)
+(* digits exceed 2^64-1 (strconv "value out of range").  Keys written by plain puts can look like     *)
+(* sequence keys ("a-12x", "a-7", 21 digits), so the numbers are kept as 20-digit strings, not as TLC    *)
+(* integers.  (Leading blanks, which Sscanf skips, are outside the modelled alphabets.)                *)
+RECURSIVE RunEnd(_, _)
+RunEnd(w, i) == IF i > Len(w) \/ w[i] < 48 \/ w[i] > 57 THEN i - 1 ELSE RunEnd(w, i + 1)
+Lead20(d) == LET w == SubSeq(d, 1, IF Len(d) < 20 THEN Len(d) ELSE 20) IN SubSeq(w, 1, RunEnd(w, 1))
+PadLeft20(r) == [i \in 1..20 |-> IF i <= 20 - Len(r) THEN 48 ELSE r[i - (20 - Len(r))]]
+MaxU64 == <<49, 56, 52, 52, 54, 55, 52, 52, 48, 55, 51, 55, 48, 57, 53, 53, 49, 54, 49, 53>>
+ScanOk(d)  == Lead20(d) # <<>> /\ BytesCmp(PadLeft20(Lead20(d)), MaxU64) <= 0
+ScanVal(d) == PadLeft20(Lead20(d))
+Zero20 == [i \in 1..20 |-> 48]
+\* decimal addition of two 20-digit strings (a carry out of the first digit is outside the claimed range)
+RECURSIVE SumFrom(_, _, _, _)
+SumFrom(a, b, i, c) == IF i = 0 THEN <<>>
+                       ELSE LET t == (a[i] - 48) + (b[i] - 48) + c IN SumFrom(a, b, i - 1, t \div 10) \o <<48 + (t % 10)>>
+Add20(a, b) == SumFrom(a, b, 20, 0)
+
 (* findCurrentLastKeyInSequence: the numeric parts of the highest key below prefix-<max>, *)
 (* provided that key starts with the prefix.                                              *)
 SeqParts(kv, prefix) ==
@@ -129,7 +149,7 @@ SeqParts(kv, prefix) ==
 RECURSIVE SeqSuffix(_, _, _)
 SeqSuffix(parts, deltas, i) ==
     IF i > Len(deltas) THEN <<>>
-    ELSE <<DASH>> \o Pad20((IF i <= Len(parts) THEN ParseNum(parts[i]) ELSE 0) + deltas[i])
+    ELSE <<DASH>> \o Add20(IF i <= Len(parts) THEN ScanVal(parts[i]) ELSE Zero20, Pad20(deltas[i]))
          \o SeqSuffix(parts, deltas, i + 1)
 
 \* outcome of generateUniqueKeyFromSequences
@@ -139,7 +159,7 @@ SeqOutcome(kv, p) ==
     ELSE IF p.exp # NoExp THEN "UNEXPECTED_VERSION_ID"
     ELSE IF Len(parts) > Len(p.deltas) THEN "ERR_MISSING_SEQUENCE_DELTAS"
     ELSE IF p.deltas[1] = 0 THEN "ERR_SEQUENCE_DELTA_IS_ZERO"
-    ELSE IF \E i \in 1..Len(parts) : ~IsDigits(parts[i]) THEN "ERR_BAD_SUFFIX"
+    ELSE IF \E i \in 1..Len(parts) : ~ScanOk(parts[i]) THEN "ERR_BAD_SUFFIX"
     ELSE "OK"
 SeqNewKey(kv, p) == p.key \o SeqSuffix(SeqParts(kv, p.key), p.deltas, 1)
 
